@@ -24,3 +24,4 @@ import CGV.Props.C10Members
 #print axioms CGV.C10.atom?_of_mem
 #print axioms CGV.C10.minv_step
 #print axioms CGV.C10.C10_class_membership
+#print axioms CGV.C10.C10_resolver_membership
